@@ -122,7 +122,7 @@ func runC02(c *Ctx) error {
 	for _, j := range jobs {
 		pool := model.InputPool(inRng, j.CFG, want, exLen)
 		// a few long inputs: parse stacks deeper than the parser's initial capacity
-		for _, ls := range model.LongSentences(inRng, j.CFG, 3, 120) {
+		for _, ls := range append(model.LongSentences(inRng, j.CFG, 3, 120), model.DeepSentences(inRng, j.LR, 2, 110)...) {
 			pool = append(pool, ls)
 			if len(ls) > 2 {
 				cut := append([]int(nil), ls[:len(ls)-1-inRng.Intn(len(ls)/2)]...)
@@ -214,7 +214,7 @@ func runC03(c *Ctx) error {
 		}
 	}
 	for _, j := range jobs {
-		for _, ls := range model.LongSentences(inRng, j.CFG, 2, 120) {
+		for _, ls := range append(model.LongSentences(inRng, j.CFG, 2, 120), model.DeepSentences(inRng, j.LR, 2, 110)...) {
 			refs = append(refs, &parseRef{j, ls, -1})
 		}
 	}
